@@ -407,7 +407,9 @@ func (p *Prog) condAtoms(v ssa.Value, want bool, depth int) DNF {
 		// boolean phi: expand one level over incoming edges (value ∧ edge reach condition
 		// relative to the phi block's dominator is handled by the caller for If-phi shapes;
 		// here: disjunction over edges of value's own atoms).
-		if depth < 3 {
+		if depth < 3 && !condBusy[x] {
+			condBusy[x] = true
+			defer delete(condBusy, x)
 			out := dnfFalse()
 			for i, e := range x.Edges {
 				d := p.condAtoms(e, want, depth+1)
@@ -421,6 +423,8 @@ func (p *Prog) condAtoms(v ssa.Value, want bool, depth int) DNF {
 	o := p.Origin(v)
 	return DNF{Cs: []Conj{{&Atom{B: o, Val: want, Cond: v, Want: want}}}}
 }
+
+var condBusy = map[ssa.Value]bool{}
 
 // ---- reach conditions ------------------------------------------------------------
 
